@@ -136,10 +136,16 @@ func genC19(g *Gen, tier string, idx int) *wire.Scenario {
 	return sc
 }
 
+// c19Notation: runes whose notation contains a backslash or a letter that names an escape
+// (\M-\ is how 0xDC is written; \a \b \d \e \f \n \r \t \v \x \C- \M- are the escapes), next to each other.
+var c19Notation = []rune{0xDC, 0xDC, '\\', 0x9C, 0x1C, 'a', 'b', 'd', 'e', 'f', 'n', 'r', 't', 'v', 'x', 'C', 'M', '-', '0', '1', '7', '"', '\'', 0x1B, 0x7F, 0xFF, 0xAD, 0xC3, 0xCD, 0xED}
+
 func (g *Gen) c19Rune() int {
-	switch g.N(5) {
+	switch g.N(6) {
 	case 0:
 		return g.N(0x20)
+	case 5:
+		return int(Pick(g, c19Notation))
 	case 1:
 		return g.Range(0x80, 0xFF)
 	case 2:
@@ -180,14 +186,20 @@ func execC19(x *Ctx, sc *wire.Scenario) *wire.Result {
 			e := f.esc(s)
 			u := inputrc.Unescape(e)
 			if u != s {
+				// named after the first rune that does not survive on its own; a sequence whose runes all
+				// do is another defect (of the notation of sequences, not of a rune)
 				cls := ""
 				for _, r := range s {
-					if c := runeClass(int(r)); c != "ascii" {
-						cls = c
+					if f.esc(string(r)) != "" && inputrc.Unescape(f.esc(string(r))) != string(r) {
+						cls = runeClass(int(r))
+						break
 					}
 				}
 				if cls == "" {
-					cls = "ascii"
+					cls = "all-runes-round-trip-individually"
+					if len([]rune(s)) == 1 {
+						cls = runeClass(int([]rune(s)[0]))
+					}
 				}
 				violation(res, "MISMATCH", "C19.escape-unescape-identity", "roundtrip:"+f.name+":"+cls+":"+what,
 					fmt.Sprintf("%s(%q) = %q, which unescapes to %q", f.name, s, e, u))
